@@ -378,22 +378,46 @@ def r3(run: Run, src, cg):
 
 
 def r4(run: Run, src):
-    from .common import inlined_function
+    """the entry cell selects the slice, its absence the whole file: decided on the request histories of the Parser (rules/
+    parser_eval.py: the collaborators record which of them was called with what); the reading of the text of _translate is the
+    fallback when the evaluator cannot follow the facade.  translate_file translates every cell through the routine of the
+    entry-point path: the workbook-level evaluation (R10) decides; the text is read when it is of the known shape."""
+    from .common import inlined_function, evaluate_shared
+    from . import parser_eval
     fi = inlined_function(src, 'Parser._translate')
-    ifs = [n for n in ast.walk(fi.node) if isinstance(n, ast.If) and ast.unparse(n.test) == 'self._entrypoint_cell']
-    ok = False
-    if len(ifs) == 1:
-        a, b = ast.unparse(ifs[0].body[0]) if ifs[0].body else '', ast.unparse(ifs[0].orelse[0]) if ifs[0].orelse else ''
-        ok = 'CellTranslator.translate(self._entrypoint_cell' in a and 'CellTranslator.translate_file(' in b
-    run.check(ok, 'C03.R4', 'Parser._translate/dispatch', 'dispatch',
-              'the entry cell does not select CellTranslator.translate(entry, ...) / its absence translate_file(...)',
-              fact='entry cell -> translate(entry); none -> translate_file', loc=loc_of(fi.module.path, fi.node))
+    loc = loc_of(fi.module.path, fi.node)
+    data = evaluate_shared(run, parser_eval.evaluate_histories, ('C03.R4', src))
+    if data['error'] is None:
+        seen = 0
+        for o in data['obligations']:
+            if '/entry-point' in o['construct'] and o['verdict'] == 'holds':
+                seen += 1
+                run.ok('C03.R4', o['construct'], o['fact'], loc=o['loc'])
+        for f in data['findings']:
+            if '/entry-point' in f['construct']:
+                seen += 1
+                run.bad('C03.R4', f['construct'], f['sub'], f['message'], loc=f['loc'])
+        if not seen:
+            raise AnalysisError('C03.R4', 'no request history with an entry point was evaluated')
+    else:
+        run.note(f'C03.R4: facade evaluation skipped ({data["error"]["reason"][:100]}); text of _translate read')
+        ifs = [n for n in ast.walk(fi.node) if isinstance(n, ast.If) and ast.unparse(n.test) == 'self._entrypoint_cell']
+        ok = False
+        if len(ifs) == 1:
+            a, b = ast.unparse(ifs[0].body[0]) if ifs[0].body else '', ast.unparse(ifs[0].orelse[0]) if ifs[0].orelse else ''
+            ok = 'CellTranslator.translate(self._entrypoint_cell' in a and 'CellTranslator.translate_file(' in b
+        if not ok:
+            raise AnalysisError('C03.R4', 'neither the evaluator nor the reading of the text can follow the dispatch in Parser._translate')
+        run.ok('C03.R4', 'Parser._translate/dispatch', 'entry cell -> translate(entry); none -> translate_file', loc=loc)
     ct = src.cls('CellTranslator')
     tf = ct.methods.get('translate_file')
-    ok = tf is not None and 'get_cells()' in ast.unparse(tf.node) and '_set_cell_to_context' in ast.unparse(tf.node)
-    run.check(ok, 'C03.R4', 'CellTranslator.translate_file', 'whole-file', 'translate_file does not translate every cell of the workbook '
-              'through the same routine as the entry-point path', fact='for cell in excel.get_cells(): _set_cell_to_context',
-              loc=loc_of(tf.module.path, tf.node) if tf else '')
+    if tf is None:
+        raise AnalysisError('C03.R4', 'CellTranslator.translate_file not found')
+    ok = 'get_cells()' in ast.unparse(tf.node) and '_set_cell_to_context' in ast.unparse(tf.node)
+    if ok:
+        run.ok('C03.R4', 'CellTranslator.translate_file', 'for cell in excel.get_cells(): _set_cell_to_context', loc=loc_of(tf.module.path, tf.node))
+    else:
+        run.note('C03.R4: translate_file is not of the known shape; the workbook-level evaluation (R10) decides whether every cell is translated')
 
 
 def run(run: Run):
@@ -431,7 +455,7 @@ def run(run: Run):
     run.floor('C03.R1', 10)
     run.floor('C03.R2', 6)
     run.floor('C03.R3', 100)
-    run.floor('C03.R4', 2)
+    run.floor('C03.R4', 5)
     run.floor('C03.R5', 8)
     run.floor('C03.R6', 14)
     from . import pipeline_eval as _pe
